@@ -668,7 +668,18 @@ func Build(rec *Recorder, n *Node, validate bool) z.ZogSchema {
 		}
 		return s
 	case KSlice:
-		s := z.Slice(Build(rec, n.Elem, validate))
+		var sopts []z.SchemaOption
+		switch n.Coercer {
+		case "err":
+			sopts = append(sopts, z.WithCoercer(func(any) (any, error) { return nil, errors.New("custom slice coercer failed") }))
+		case "const":
+			items := make([]any, len(n.CoList))
+			for i, l := range n.CoList {
+				items[i] = leafGo(l, n.Elem.Kind)
+			}
+			sopts = append(sopts, z.WithCoercer(func(any) (any, error) { return items, nil }))
+		}
+		s := z.Slice(Build(rec, n.Elem, validate), sopts...)
 		if n.Req != nil {
 			s.Required(testOpts(n.Req)...)
 		}
@@ -698,7 +709,16 @@ func Build(rec *Recorder, n *Node, validate bool) z.ZogSchema {
 		}
 		return s
 	case KPtr:
-		s := z.Ptr(Build(rec, n.Elem, validate))
+		var s *z.PointerSchema
+		if n.PtrCo {
+			// the coercer reaches the pointed-to schema through the pointer schema
+			inner := *n.Elem
+			inner.GlobalCo = true
+			s = z.Ptr(Build(rec, &inner, validate))
+			z.WithCoercer(customCoercer(n.Elem))(s)
+		} else {
+			s = z.Ptr(Build(rec, n.Elem, validate))
+		}
 		if n.Req != nil {
 			s.NotNil(testOpts(n.Req)...)
 		}
